@@ -62,14 +62,23 @@ func TestRace(t *testing.T) {
 			t.Fatal(err)
 		}
 		for i := 0; i < 200; i++ {
-			runWorld(w)
+			if !runWorld(w) {
+				fmt.Fprintf(os.Stderr, "GSIM-STUCK replay\n")
+				break
+			}
 		}
 		return
 	}
 	for idx := *fFrom; idx < *fTo; idx++ {
 		w := gen.World("C16", *fSeed, idx, *fTier)
 		fmt.Fprintf(os.Stderr, "GSIM-WORLD %d\n", idx)
-		runWorld(w)
+		if !runWorld(w) {
+			// goroutines of that world are still blocked inside the library and may hold whatever
+			// process-wide state it has: later worlds of this process would only inherit the damage.
+			// Deadlocks are Engine A's business; this process stops here.
+			fmt.Fprintf(os.Stderr, "GSIM-STUCK %d\n", idx)
+			break
+		}
 		worlds++
 		tasksRun += len(w.Tasks)
 	}
@@ -78,7 +87,7 @@ func TestRace(t *testing.T) {
 	}
 }
 
-func runWorld(w *world.World) {
+func runWorld(w *world.World) (finished bool) {
 	var wg sync.WaitGroup
 	done := make(chan struct{})
 	for i := range w.Tasks {
@@ -96,7 +105,9 @@ func runWorld(w *world.World) {
 	go func() { wg.Wait(); close(done) }()
 	select {
 	case <-done:
+		return true
 	case <-time.After(20 * time.Second):
 		// a stuck world (deadlock under free scheduling) is not judged here
+		return false
 	}
 }
